@@ -3,7 +3,7 @@
 // (4 hex digits per unit, "-" = empty (non-null) string, "~" = null pointer for category/file/function
 // and a null QString for the message):
 //   pat type msg cat file fn line nattr (key tval)* ntf (timefmt)*
-//   tval = s<hex> (QString) | i<decimal> (int / qlonglong) | b0 | b1 (bool)
+//   tval = s<hex> (QString; s~ = null QString, s- = empty) | i<decimal> (int / qlonglong) | b0 | b1 (bool)
 //
 // default mode, output line:
 //   <formatted> <N|V: result.isNull() or not> <threadId decimal> <qthreadptr decimal> <%{func} rendering> (<rendering of each timefmt>)*
